@@ -87,6 +87,16 @@ def run(c, prog, ctx):
                 handed.add((top[2], top[3]))
     c.inst("R2.handout-leaf", "witness_mut hands out exactly TxInWitness.script_witness", handed == {("transaction::TxInWitness", "script_witness")},
            "handed out: %s" % sorted(handed), wm.where(), wm.path)
+    # ... and does nothing else to the transaction: the only mutation a caller can cause is through the reference handed out
+    writes = []
+    for fn in [wm] + prog.closures_of(wm.path):
+        for e in effects(fn.body):
+            if e["kind"] == "assign" and any(x[0] == "fld" for x in walk_term(e["target"])):
+                writes.append("%s := %s" % (show(e["target"], -9), show(e["value"], -9)[:60]))
+            elif e["kind"] == "mutarg" and not re.search(r"(get_mut|::map|deref_mut|as_mut|iter_mut|index_mut|::nth|::next)$", e["callee"] or ""):
+                writes.append("%s(&mut %s)" % (e["callee"], show(e["target"], -9)))
+    c.inst("R2.handout-no-writes", "witness_mut itself writes nothing into the transaction", not writes,
+           "writes performed by witness_mut before handing out the reference: %s" % writes[:4], wm.where(), wm.path)
     inter = cache_reads & handed
     c.inst("R2.cache-purity", "cache builders never read what witness_mut can change", not inter,
            "cached data depends on %s which callers can modify through witness_mut between queries" % sorted(inter), wm.where(), SC)
